@@ -2,7 +2,7 @@
    spec: spec/AnchorPolicy.tla -- the rule trees of the calendar-based, key-based, publications-file, user-publication and general policies
    transcribed as data, the meaning of every leaf rule over an abstract environment (signature shape, user publication, publications file,
    extending allowed, extender behaviour, certificate state), the interpreter's list semantics, and the declarative property (OkOnlyIfBound,
-   FailOnlyOnContradiction, BrokenNeverOk, NoAnchorIsNA, and completeness).  TLC checks the five invariants on all 176 000 (policy, environment)
+   FailOnlyOnContradiction, BrokenNeverOk, NoAnchorIsNA, and completeness).  TLC checks the five invariants on all 492 800 (policy, environment)
    pairs and exports the verdict of each.  Each replayed case is realised with real bytes: reference-built signature, really RSA-signed
    authentication record, really signed publications file listing a certificate with the chosen validity window, a scripted extender on the
    real blocking TCP client answering from an honest calendar database with the chosen deviation.  KSI_SignatureVerifier_verify must return the
@@ -19,7 +19,7 @@ def tlc_cases(chk):
     d = vlib.scratch("c04")
     cfg = os.path.join(d, "c.cfg")
     with open(cfg, "w") as f:
-        f.write("SPECIFICATION Spec\nINVARIANTS\n P1\n P2\n P3\n P4\n P5\n Emit\n")
+        f.write("SPECIFICATION Spec\nINVARIANTS\n AllWellFormed\n P1\n P2\n P3\n P4\n P5\n Emit\n")
     r = vlib.run_tlc("MC_AnchorPolicy.tla", cfg, timeout=2400, workers=16)
     if r.violation:
         raise vlib.CheckError("AnchorPolicy.tla violates %s:\n%s" % (r.violation, r.out[-3000:]))
@@ -96,16 +96,18 @@ class Case:
             h = sigcase.flip(h)
         return "%d:%s" % (t, h.hex())
 
-    def pub_file(self):
+    def pub_file(self, raw=False):
         e = self.e
         if e["pf"] == "none":
-            return "-"
+            return None if raw else "-"
         recs = [pubfile.header(created=self.P2 + 5), pubfile.cert_record(self.W.w.signer), pubfile.cert_record(self.cert)]
         recs.append(pubfile.pub_record(self.T - 5000, ksi.fake_imprint(1, b"old")))
         if e["pfc"]["atSig"] != "absent":
             h = self.true_root(self.P1); recs.append(pubfile.pub_record(self.P1, h if e["pfc"]["atSig"] == "match" else sigcase.flip(h)))
         if e["pfc"]["later"] != "none":
             h = self.true_root(self.P2); recs.append(pubfile.pub_record(self.P2, h if e["pfc"]["later"] == "true" else sigcase.flip(h)))
+        if raw:                  # a file to be fetched and PKI-verified: really signed over exactly its records
+            return pubfile.signed_file(self.W.w, recs)
         return (pubfile.MAGIC + b"".join(recs) + pubfile.sig_record(self.W.p7)).hex()
 
     def reply(self, raw):
@@ -142,7 +144,24 @@ class Case:
 
     def run(self, s):
         self.requests = []
-        out = s.cmd("VERIFY %s %s %s %s %d" % (self.p, self.sig.hex(), self.user_pub(), self.pub_file(), 1 if self.e["extAllowed"] else 0) + self.doc_arg)
+        src = self.e.get("pfsrc", "user")
+        if src != "user" and self.e["pf"] == "given":
+            # the publications file is not handed over but fetched from the context's publications URL (file://) and must pass PKI verification:
+            # trusted = signed by the configured CA with the configured subject; untrusted = another CA in the store, or another constraint value
+            path = os.path.join(self.W.w.dir, "pub-%d.bin" % os.getpid())
+            with open(path, "wb") as f:
+                f.write(self.pub_file(raw=True))
+            s.cmd("BNEW")
+            how = "ok" if src == "downloadTrusted" else self.rng.choice(["otherCa", "otherConstraint", "emptyStore"])
+            ca = {"ok": self.W.w.ca_pem, "otherConstraint": self.W.w.ca_pem, "otherCa": self.W.w.other_ca_pem, "emptyStore": "-"}[how]
+            val = pubfile.EMAIL if how != "otherConstraint" else "someone@else.example"
+            o = s.cmd("PUBCFG %s %s %s %s" % (ca, path, pubfile.E_OID, val.encode().hex()))
+            if "rc=0x0" not in o[-1]:
+                raise vlib.CheckError("PUBCFG failed: %s" % o)
+            pf_arg = "-"; self.fresh_ctx = True
+        else:
+            pf_arg = self.pub_file()
+        out = s.cmd("VERIFY %s %s %s %s %d" % (self.p, self.sig.hex(), self.user_pub(), pf_arg, 1 if self.e["extAllowed"] else 0) + self.doc_arg)
         guard = 0
         while out and out[-1].startswith("Q recv"):
             guard += 1
@@ -157,19 +176,21 @@ class Case:
                 s.cmd("EP 1"); s.cmd("PEERCLOSE")
             out = s.cmd("GO")
         s.cmd("EP 0")
+        if getattr(self, "fresh_ctx", False):
+            s.cmd("BNEW")              # do not leave the URL / cached file behind for the next case
         return [l for l in out if l.startswith("R verify")][0]
 
 
 def key_of(c):
     e = c["e"]
-    return (c["p"], c["v"]["res"], c["v"]["code"], e["rec"], e["cal"], e["ext"] if e["ext"] != "honest" else "h", e["cert"], e["up"] + e["upTime"][:2], e["pf"] + e["pfc"]["atSig"][:2] + e["pfc"]["later"][:2])
+    return (c["p"], c["v"]["res"], c["v"]["code"], e["rec"], e["cal"], e["ext"] if e["ext"] != "honest" else "h", e["cert"], e["pfsrc"][:9], e["up"] + e["upTime"][:2], e["pf"] + e["pfc"]["atSig"][:2] + e["pfc"]["later"][:2])
 
 
 def describe(c):
     e = c["e"]
     return "%s: sig(cal=%s,rec=%s,internal=%s) userPub=%s pubFile=%s extAllowed=%s extender=%s cert=%s" % (
         c["p"], e["cal"], e["rec"], e["internal"], "none" if e["up"] == "none" else e["upTime"] + "/" + e["upHash"],
-        "none" if e["pf"] == "none" else "atSig=%s,later=%s" % (e["pfc"]["atSig"], e["pfc"]["later"]), e["extAllowed"], e["ext"], e["cert"])
+        "none" if e["pf"] == "none" else "%s:atSig=%s,later=%s" % (e["pfsrc"], e["pfc"]["atSig"], e["pfc"]["later"]), e["extAllowed"], e["ext"], e["cert"])
 
 
 def run(chk, tier, seed):
@@ -187,7 +208,7 @@ def run(chk, tier, seed):
         rng.shuffle(chosen)
         first = []; rest = []
         for c in chosen:
-            k = key_of(c)[:7]
+            k = key_of(c)[:8]
             if k in coarse: rest.append(c)
             else: coarse[k] = 1; first.append(c)
         chosen = first + rest[:max(0, 4000 - len(first))]
@@ -234,9 +255,9 @@ def run(chk, tier, seed):
             chk.violation("crash:verify:exit", "driver exited rc=%s (leak or sanitizer report)\n%s" % (rc, err[-2500:]), {})
     chk.sample(dict(kind="verdicts replayed", by_result=byres)); chk.sample(dict(kind="case", case=chosen[len(chosen) // 2]))
     chk.add(evaluations=n, distinct_nontrivial=n, model_cases=len(cases), case_classes=len(groups), unrealisable=skipped, exhaustive=False,
-            rule="TLC: all 176 000 (policy, environment) pairs against 5 invariants. Replay: %d case(s) of every class (policy x verdict x code x signature shape x extender behaviour x certificate state "
+            rule="TLC: all 492 800 (policy, environment) pairs against 5 invariants. Replay: %d case(s) of every class (policy x verdict x code x signature shape x extender behaviour x certificate state "
                  "x user publication x publications file content)" % per)
-    chk.assumptions += ["the publications file is handed over as the user's file (its own PKI trust is C18's); the context has no publications URL, so 'no file' means the download fails",
+    chk.assumptions += ["the publications file is either handed over as the user's file, or fetched through the context's file:// publications URL and PKI-verified (trusted / untrusted by wrong CA, empty store or other constraint value); 'no file' means the download fails",
                         "hash algorithms are SHA-256 throughout: the `algorithm deprecated at publication time` leaves are constant OK",
                         "extender behaviours are one deviation at a time; HTTP transport not bound"]
 
